@@ -774,6 +774,7 @@ type g17 struct {
 	defs     []string // definition names that may be referenced
 	addlBad  int      // percent chance of a not completely converted additionalProperties sub-schema
 	clean    bool     // stay outside every known-finding class (the property is then checked strictly)
+	noRef    bool     // no reference at this point (members of allOf inside possibly cyclic definitions)
 }
 
 func (g *g17) pick(xs ...any) any { return xs[g.r.Intn(len(xs))] }
@@ -784,7 +785,7 @@ func (g *g17) constraints(m map[string]any, ty string, density int, isParam bool
 	switch ty {
 	case "integer", "number":
 		if ch() {
-			m["minimum"] = g.pick(1, 2, -3)
+			m["minimum"] = g.pick(1, 2, -3, 0)
 			if ch() {
 				m["exclusiveMinimum"] = true
 			}
@@ -807,6 +808,9 @@ func (g *g17) constraints(m map[string]any, ty string, density int, isParam bool
 		}
 		if ch() {
 			m["default"] = 5
+			if mn, has := m["minimum"]; g.r.Chance(30) && m["enum"] == nil && (!has || mn == -3 || (mn == 0 && m["exclusiveMinimum"] == nil)) {
+				m["default"] = 0 // a zero value that is not "absent"
+			}
 		}
 		if ch() {
 			if ty == "integer" {
@@ -830,6 +834,9 @@ func (g *g17) constraints(m map[string]any, ty string, density int, isParam bool
 		}
 		if ch() {
 			m["default"] = "ab"
+			if g.r.Chance(25) && m["minLength"] == nil && m["pattern"] == nil && m["enum"] == nil {
+				m["default"] = ""
+			}
 		}
 		if ch() {
 			m["format"] = g.pick("date", "date-time", "byte", "password")
@@ -844,7 +851,7 @@ func (g *g17) constraints(m map[string]any, ty string, density int, isParam bool
 		}
 	case "boolean":
 		if ch() {
-			m["default"] = true
+			m["default"] = g.r.Bool()
 		}
 	case "array":
 		if ch() {
@@ -890,7 +897,7 @@ func (g *g17) ref() map[string]any {
 
 // pure additionalProperties sub-schema: references only along the additionalProperties chain
 func (g *g17) addlSchema(depth int) any {
-	if !g.clean && len(g.defs) > 0 && g.r.Chance(35) {
+	if !g.clean && !g.noRef && len(g.defs) > 0 && g.r.Chance(35) {
 		return g.ref()
 	}
 	if !g.clean && g.r.Chance(g.addlBad) {
@@ -899,7 +906,7 @@ func (g *g17) addlSchema(depth int) any {
 		case 0:
 			return map[string]any{"type": "string", "x-nullable": true}
 		case 1:
-			if len(g.defs) > 0 {
+			if len(g.defs) > 0 && !g.noRef {
 				return map[string]any{"type": "array", "items": g.ref()}
 			}
 		}
@@ -920,7 +927,7 @@ func (g *g17) addlSchema(depth int) any {
 }
 
 func (g *g17) schema(depth int, density int) map[string]any {
-	if len(g.defs) > 0 && g.r.Chance(22) {
+	if len(g.defs) > 0 && !g.noRef && g.r.Chance(22) {
 		return g.ref()
 	}
 	if depth > 0 && g.r.Chance(12) {
@@ -998,6 +1005,44 @@ func (g *g17) schema(depth int, density int) map[string]any {
 }
 
 var c17Locs = []string{"query", "header", "query"}
+
+// keys shared by every namespace; the last two exercise the identifier alphabet (dot, dash, underscore)
+var c17Keys = []string{"A", "B", "C", "Pet.v1", "pet-list_2"}
+
+// defSchema: the schema of a definition. In a cyclic document a reference directly under allOf (a pure
+// composition cycle, DESIGN #6) is avoided: cycles pass through properties / items / additionalProperties.
+func (g *g17) defSchema(depth, density int, cyclic bool) map[string]any {
+	if !cyclic {
+		return g.schema(depth, density)
+	}
+	m := map[string]any{"type": "object"}
+	props := map[string]any{}
+	for i, k := 0, 1+g.r.Intn(3); i < k; i++ {
+		name := hx.Pick(g.r, []string{"a", "b", "next", "items"})
+		switch g.r.Intn(3) {
+		case 0:
+			props[name] = g.ref()
+		case 1:
+			props[name] = map[string]any{"type": "array", "items": g.ref()}
+		default:
+			g.noRef = true
+			props[name] = g.schema(depth-1, density)
+			g.noRef = false
+		}
+	}
+	m["properties"] = props
+	if g.r.Chance(30) {
+		m["required"] = []any{c17_sortedKeys(props)[0]}
+	}
+	if g.clean {
+		if g.r.Chance(20) {
+			m["additionalProperties"] = g.r.Bool()
+		}
+	} else if g.r.Chance(25) {
+		m["additionalProperties"] = g.ref()
+	}
+	return m
+}
 
 func (g *g17) param(name, in string, density int) map[string]any {
 	ty := hx.Pick(g.r, c17Prims)
@@ -1091,6 +1136,9 @@ func c17Sec(kind string, r *hx.Rng) map[string]any {
 	if r != nil && r.Bool() {
 		scopes["write"] = "write things"
 	}
+	if r != nil && r.Chance(12) {
+		scopes = map[string]any{}
+	}
 	switch kind {
 	case "basic":
 		return map[string]any{"type": "basic"}
@@ -1108,6 +1156,11 @@ func c17Sec(kind string, r *hx.Rng) map[string]any {
 		return map[string]any{"type": "oauth2", "flow": "password", "tokenUrl": "https://auth.example/token", "scopes": scopes}
 	}
 	return map[string]any{"type": "oauth2", "flow": "application", "tokenUrl": "https://auth.example/token2", "scopes": scopes}
+}
+
+// c17Ident turns a component key into something usable inside a parameter name
+func c17Ident(s string) string {
+	return strings.NewReplacer(".", "", "-", "", "_", "").Replace(s)
 }
 
 func c17Base() map[string]any {
@@ -1349,6 +1402,107 @@ func genC17Exhaustive(emit func(hx.Case)) {
 		pi[m] = c17Op("op_"+m, nil, nil)
 	}
 	emit(hx.Case{"doc": c17Doc(map[string]any{"/all": pi, "/other": map[string]any{"get": c17Op("og", nil, nil)}})})
+	// one key in every namespace: definitions, shared parameters, shared responses, security definitions are
+	// separate namespaces in OpenAPI 2; a shared parameter of every kind, referenced from an operation and from
+	// a path item, next to a definition / response / security definition of the same key
+	for _, key := range []string{"A", "Pet.v1"} {
+		shared := []map[string]any{
+			{"name": "q", "in": "query", "type": "integer", "minimum": 1},
+			{"name": "X-H", "in": "header", "type": "string", "required": true},
+			{"name": "id", "in": "path", "type": "string", "required": true},
+			{"name": "payload", "in": "body", "required": true, "schema": map[string]any{"$ref": "#/definitions/" + key}},
+			{"name": "up", "in": "formData", "type": "file", "required": true},
+			{"name": "note", "in": "formData", "type": "string", "maxLength": 8},
+		}
+		for _, sp := range shared {
+			for _, site := range []string{"op", "path"} {
+				for mask := 1; mask < 8; mask++ {
+					in := sp["in"].(string)
+					if site == "path" && (in == "body" || in == "formData") {
+						continue
+					}
+					pn := "/x"
+					if in == "path" {
+						pn = "/x/{id}"
+					}
+					ref := map[string]any{"$ref": "#/parameters/" + key}
+					op := c17Op("g", nil, map[string]any{"200": map[string]any{"description": "ok", "schema": map[string]any{"$ref": "#/definitions/" + key}}, "404": map[string]any{"$ref": "#/responses/" + key}})
+					pi := map[string]any{}
+					if site == "op" {
+						op["parameters"] = []any{ref}
+					} else {
+						pi["parameters"] = []any{ref}
+					}
+					if in == "formData" {
+						op["consumes"] = form
+					}
+					pi["post"] = op
+					d := c17Doc(map[string]any{pn: pi})
+					d["parameters"] = map[string]any{key: sp}
+					d["definitions"] = map[string]any{"Other": map[string]any{"type": "object"}}
+					d["responses"] = map[string]any{"Other": map[string]any{"description": "nf"}}
+					if mask&1 != 0 {
+						d["definitions"] = map[string]any{key: map[string]any{"type": "object", "properties": map[string]any{"n": map[string]any{"type": "integer"}}}}
+					} else {
+						op["responses"].(map[string]any)["200"] = map[string]any{"description": "ok"}
+						if in == "body" {
+							continue
+						}
+					}
+					if mask&2 != 0 {
+						d["responses"] = map[string]any{key: map[string]any{"description": "nf", "headers": map[string]any{"X-R": map[string]any{"type": "integer"}}}}
+					} else {
+						delete(op["responses"].(map[string]any), "404")
+					}
+					if mask&4 != 0 {
+						d["securityDefinitions"] = map[string]any{key: c17Sec("accessCode", nil)}
+					}
+					emit(hx.Case{"doc": d})
+				}
+			}
+		}
+	}
+	// self-referential and mutually recursive definitions
+	for _, defs := range []map[string]any{
+		{"Node": map[string]any{"type": "object", "properties": map[string]any{"next": map[string]any{"$ref": "#/definitions/Node"}, "v": map[string]any{"type": "integer"}}}},
+		{"Tree": map[string]any{"type": "object", "properties": map[string]any{"kids": map[string]any{"type": "array", "items": map[string]any{"$ref": "#/definitions/Tree"}}}}},
+		{"A": map[string]any{"type": "object", "properties": map[string]any{"b": map[string]any{"$ref": "#/definitions/B"}}}, "B": map[string]any{"type": "object", "properties": map[string]any{"a": map[string]any{"$ref": "#/definitions/A"}}, "x-nullable": true}},
+		{"A": map[string]any{"allOf": []any{map[string]any{"$ref": "#/definitions/B"}, map[string]any{"type": "object", "properties": map[string]any{"self": map[string]any{"$ref": "#/definitions/A"}}}}}, "B": map[string]any{"type": "object", "required": []any{"id"}, "properties": map[string]any{"id": map[string]any{"type": "string"}}}},
+	} {
+		var first string
+		for k := range defs {
+			if first == "" || k < first {
+				first = k
+			}
+		}
+		d := c17Doc(map[string]any{"/x": map[string]any{"post": c17Op("p", []any{map[string]any{"name": "b", "in": "body", "schema": map[string]any{"$ref": "#/definitions/" + first}}}, map[string]any{"200": map[string]any{"description": "ok", "schema": map[string]any{"$ref": "#/definitions/" + first}}})}})
+		d["definitions"] = defs
+		emit(hx.Case{"doc": d})
+	}
+	// zero values that are not "absent"
+	for _, s := range []any{
+		map[string]any{"type": "integer", "minimum": 0}, map[string]any{"type": "integer", "maximum": 0}, map[string]any{"type": "integer", "default": 0},
+		map[string]any{"type": "boolean", "default": false}, map[string]any{"type": "string", "default": ""}, map[string]any{"type": "string", "maxLength": 0},
+		map[string]any{"type": "array", "items": map[string]any{"type": "string"}, "maxItems": 0}, map[string]any{"type": "integer", "enum": []any{0}},
+	} {
+		sm := s.(map[string]any)
+		d := c17Doc(map[string]any{"/x": map[string]any{"get": c17Op("g", []any{with(sm, map[string]any{"name": "q", "in": "query"})}, map[string]any{"200": map[string]any{"description": "ok", "schema": s, "headers": map[string]any{"X-H": s}}})}})
+		d["definitions"] = map[string]any{"Z": s}
+		emit(hx.Case{"doc": d})
+		op := c17Op("p", []any{with(sm, map[string]any{"name": "f", "in": "formData"})}, nil)
+		op["consumes"] = form
+		emit(hx.Case{"doc": c17Doc(map[string]any{"/x": map[string]any{"post": op}})})
+	}
+	// the names FromV3 tries for the body parameter are taken by other parameters
+	for _, names := range [][]string{{"body"}, {"requestBody"}, {"body", "requestBody"}} {
+		params := []any{map[string]any{"name": "payload", "in": "body", "schema": map[string]any{"type": "object"}}}
+		for _, n := range names {
+			params = append(params, map[string]any{"name": n, "in": "query", "type": "string"})
+		}
+		emit(hx.Case{"doc": c17Doc(map[string]any{"/x": map[string]any{"post": c17Op("p", params, nil)}})})
+	}
+	// a body parameter without a schema
+	emit(hx.Case{"doc": c17Doc(map[string]any{"/x": map[string]any{"post": c17Op("p", []any{map[string]any{"name": "b", "in": "body", "required": true}}, nil)}})})
 	// component names outside the v3 identifier alphabet
 	for _, n := range []string{"My Def", "Page«Pet»", "a/b", "ok.name_1-x"} {
 		d := c17Doc(map[string]any{"/x": map[string]any{"get": c17Op("g", nil, nil)}})
@@ -1362,22 +1516,35 @@ func (g *g17) randomDoc() map[string]any {
 	d := c17Base()
 	density := hx.Pick(r, []int{15, 35, 60})
 	// definitions
-	allDefs := []string{"A", "B", "C", "D"}[:r.Intn(5)]
+	// one key pool for every namespace (definitions, shared parameters, shared responses, security
+	// definitions): the namespaces are separate in OpenAPI 2, so equal keys are legal and must not interact
+	allDefs := append([]string{}, c17Keys[:r.Intn(len(c17Keys)+1)]...)
 	if !g.clean && r.Chance(3) {
 		allDefs = append(allDefs, "My Def")
 	}
 	defs := map[string]any{}
 	g.defs = nil
+	cyclic := r.Chance(40) // references may point forward, at the definition itself, or in a cycle
+	if cyclic {
+		for _, n := range allDefs {
+			if !strings.ContainsAny(n, " /") {
+				g.defs = append(g.defs, n)
+			}
+		}
+		cyclic = len(g.defs) > 0
+	}
 	for _, n := range allDefs {
-		defs[n] = g.schema(3, density) // may reference earlier definitions only
+		g.noRef = false
+		defs[n] = g.defSchema(3, density, cyclic)
 		if c17_jmap(defs[n])["$ref"] != nil {
 			defs[n] = map[string]any{"type": "object", "properties": map[string]any{"r": defs[n]}}
 		}
-		if strings.ContainsAny(n, " /") {
+		if strings.ContainsAny(n, " /") || cyclic {
 			continue
 		}
 		g.defs = append(g.defs, n)
 	}
+	g.noRef = false
 	if len(defs) > 0 {
 		d["definitions"] = defs
 	}
@@ -1409,9 +1576,17 @@ func (g *g17) randomDoc() map[string]any {
 	// shared parameters and responses
 	sharedQ, sharedB, sharedF := []string{}, []string{}, []string{}
 	sp := map[string]any{}
+	spKeys := []string{"A", "B", "Pet.v1", "lim", "payload", "C"}
 	for i, k := 0, r.Intn(4); i < k; i++ {
-		name := fmt.Sprintf("sp%d", i)
-		switch r.Intn(4) {
+		name := hx.Pick(r, spKeys)
+		if sp[name] != nil {
+			continue
+		}
+		kind := r.Intn(4)
+		if g.clean && kind == 1 && defs[name] != nil {
+			kind = 2 // a shared form parameter under the key of a definition: class SharedFormParamDefClash
+		}
+		switch kind {
 		case 0:
 			bp := map[string]any{"name": "payload", "in": "body", "schema": g.schema(2, density)}
 			if r.Bool() {
@@ -1420,9 +1595,9 @@ func (g *g17) randomDoc() map[string]any {
 			sp[name] = bp
 			sharedB = append(sharedB, name)
 		case 1:
-			fp := map[string]any{"name": "sf" + name, "in": "formData", "type": "file"}
+			fp := map[string]any{"name": "sf" + c17Ident(name), "in": "formData", "type": "file"}
 			if !g.clean && r.Chance(15) {
-				fp = g.formParam("sf"+name, density) // non-file shared form parameters: class SharedFormParamNotFile
+				fp = g.formParam("sf"+c17Ident(name), density) // non-file shared form parameters: class SharedFormParamNotFile
 			}
 			if r.Bool() {
 				fp["required"] = true
@@ -1430,7 +1605,7 @@ func (g *g17) randomDoc() map[string]any {
 			sp[name] = fp
 			sharedF = append(sharedF, name)
 		default:
-			sp[name] = g.param("s"+name, hx.Pick(r, c17Locs), density)
+			sp[name] = g.param("s"+c17Ident(name), hx.Pick(r, c17Locs), density)
 			sharedQ = append(sharedQ, name)
 		}
 	}
@@ -1440,7 +1615,10 @@ func (g *g17) randomDoc() map[string]any {
 	sharedR := []string{}
 	sr := map[string]any{}
 	for i, k := 0, r.Intn(3); i < k; i++ {
-		name := fmt.Sprintf("r%d", i)
+		name := hx.Pick(r, []string{"A", "B", "nf", "Pet.v1", "lim"})
+		if sr[name] != nil {
+			continue
+		}
 		sr[name] = g.response(density, nil)
 		sharedR = append(sharedR, name)
 	}
@@ -1452,7 +1630,7 @@ func (g *g17) randomDoc() map[string]any {
 		sd := map[string]any{}
 		for i, k := 0, 1+r.Intn(3); i < k; i++ {
 			kind := hx.Pick(r, c17SecKinds)
-			sd["sec_"+kind] = c17Sec(kind, r)
+			sd[hx.Pick(r, []string{"A", "B", "Pet.v1", "sec_" + kind, "lim"})] = c17Sec(kind, r)
 		}
 		d["securityDefinitions"] = sd
 	}
@@ -1474,8 +1652,12 @@ func (g *g17) randomDoc() map[string]any {
 				pl = append(pl, map[string]any{"$ref": "#/parameters/" + hx.Pick(r, sharedQ)})
 			}
 			pi["parameters"] = pl
-		} else if r.Chance(20) {
-			pi["parameters"] = []any{g.param("plq", "query", density)}
+		} else if r.Chance(30) {
+			pl := []any{g.param("plq", "query", density)}
+			if r.Bool() && len(sharedQ) > 0 {
+				pl = append(pl, map[string]any{"$ref": "#/parameters/" + hx.Pick(r, sharedQ)})
+			}
+			pi["parameters"] = pl
 		}
 		for j, km := 0, 1+r.Intn(3); j < km; j++ {
 			m := hx.Pick(r, c17Methods)
@@ -1487,9 +1669,18 @@ func (g *g17) randomDoc() map[string]any {
 			if hasVar && !pathLevelID {
 				params = append(params, g.param("id", "path", density))
 			}
-			names := []string{"p", "q", "r"}
-			for x, kp := 0, r.Intn(3); x < kp; x++ {
-				params = append(params, g.param(names[x], hx.Pick(r, c17Locs), density))
+			names := []string{"p", "q", "p", "body", "requestBody"}
+			if !g.clean || !r.Chance(15) {
+				names = names[:4] // FromV3's error (class BodyNameClash) and FromV3's panic (class BinaryString) are kept apart
+			}
+			seenNI := map[string]bool{}
+			for x, kp := 0, r.Intn(4); x < kp; x++ {
+				nm, in := hx.Pick(r, names), hx.Pick(r, c17Locs)
+				if seenNI[nm+"/"+in] {
+					continue
+				}
+				seenNI[nm+"/"+in] = true
+				params = append(params, g.param(nm, in, density))
 			}
 			for _, s := range sharedQ {
 				if r.Chance(25) {
@@ -1503,6 +1694,9 @@ func (g *g17) randomDoc() map[string]any {
 					params = append(params, map[string]any{"$ref": "#/parameters/" + hx.Pick(r, sharedB)})
 				} else {
 					bp := map[string]any{"name": g.pick("body", "payload"), "in": "body", "schema": g.schema(2, density)}
+					if !g.clean && r.Chance(6) {
+						delete(bp, "schema") // class BodyWithoutSchema
+					}
 					if r.Bool() {
 						bp["required"] = true
 					}
